@@ -30,6 +30,15 @@ theorem keyhash_refines_partial (H : Key → Nat → Nat) (hH : HashOK H) (size 
     run H (create size kalloc salloc) ops = specRun [] ops :=
   run_spec hH ops _ [] (inv_create H size kalloc salloc h1 h2 h3) hnul
 
+/-- no out-of-bounds access, no endless chain walk, whatever the history (histories without `Get`, whose index
+    precondition is the caller's; with `Get`s of assigned indices the same follows from `keyhash_refines_partial`) -/
+theorem keyhash_never_faults_partial (H : Key → Nat → Nat) (hH : HashOK H) (size kalloc salloc : Nat)
+    (h1 : 0 < size) (h2 : 0 < kalloc) (h3 : 0 < salloc) (ops : List Op) (hnul : ∀ op ∈ ops, op.NulFree)
+    (hget : ∀ op ∈ ops, ∀ i, op ≠ .get i) :
+    (run H (create size kalloc salloc) ops).isSome = true := by
+  rw [keyhash_refines_partial H hH size kalloc salloc h1 h2 h3 ops hnul]
+  exact specRun_isSome_of_no_get ops [] hget
+
 /-- … in particular with Jenkins' one-at-a-time hash as written in `jenkins_hash` (signed `char` arithmetic) -/
 theorem keyhash_refines_jenkins_partial (size kalloc salloc : Nat) (h1 : 0 < size) (h2 : 0 < kalloc) (h3 : 0 < salloc)
     (ops : List Op) (hnul : ∀ op ∈ ops, op.NulFree) :
